@@ -468,6 +468,68 @@ func c18dpipe(steps int) *explore.Scenario {
 	return sc
 }
 
+// c18dpipeLarge: messages around and above 64 KiB (the largest UDP datagram is no limit for a dpipe: "any
+// message sizes") cross in both directions unmodified and whole.
+func c18dpipeLarge() *explore.Scenario {
+	sc := &explore.Scenario{Name: "dpipe large messages (65535, 65536, 70000, 1 MiB) both ways", Bound: 0}
+	sc.Cfg.Horizon = 10 * time.Second
+	sc.Make = func() (func(), func(*zzvsched.Exec) (string, *explore.Violation)) {
+		var viol *explore.Violation
+		finished := false
+		done := 0
+		body := func() {
+			a, b := dpipe.Pipe()
+			ends := []interface {
+				Read([]byte) (int, error)
+				Write([]byte) (int, error)
+			}{a, b}
+			for k, size := range []int{65535, 65536, 70000, 1 << 20, 65537} {
+				w, r := ends[k%2], ends[1-k%2]
+				p := make([]byte, size)
+				for i := range p {
+					p[i] = byte(i*7 + k)
+				}
+				keep := append([]byte(nil), p...)
+				n, err := w.Write(p)
+				for i := range p {
+					p[i] = '!'
+				}
+				if err != nil || n != size {
+					viol = &explore.Violation{Sig: "C18 dpipe write", Msg: fmt.Sprintf("Write of %d bytes returned (%d, %v)", size, n, err)}
+					return
+				}
+				buf := make([]byte, size+8)
+				n, err = r.Read(buf)
+				if err != nil || n != size || string(buf[:n]) != string(keep) {
+					first := 0
+					for first < n && first < size && buf[first] == keep[first] {
+						first++
+					}
+					viol = &explore.Violation{Sig: "C18 dpipe wrong-message", Msg: fmt.Sprintf("a %d-byte message was read as (n=%d, err=%v), first differing byte at %d", size, n, err, first)}
+					return
+				}
+				done++
+			}
+			finished = true
+		}
+		check := func(ex *zzvsched.Exec) (string, *explore.Violation) {
+			out := fmt.Sprintf("messages=%d", done)
+			if len(ex.Panics) > 0 {
+				return out, &explore.Violation{Sig: "C18 dpipe panic", Msg: "large messages: panic: " + ex.Panics[0].Value}
+			}
+			if viol != nil {
+				return out, viol
+			}
+			if !finished {
+				return out, &explore.Violation{Sig: "C18 dpipe blocked", Msg: fmt.Sprintf("large messages: blocked after %d: %v", done, ex.Parked)}
+			}
+			return out, nil
+		}
+		return body, check
+	}
+	return sc
+}
+
 // c18dpipeBlocked: the 1000-message buffer towards b is full, one more Write on a blocks, and then a is
 // closed (or b reads one message).  Closing a must release the blocked Write with an error and leave every
 // message that had been accepted readable at b, in order; a read at b must let the blocked Write through.
@@ -565,11 +627,11 @@ func init() {
 	register(&Check{ID: "C18", YieldOnRelease: true,
 		Scenarios: func(tier string) []*explore.Scenario {
 			if tier == "quick" {
-				return []*explore.Scenario{c18bridge(4, 0, 8), c18bridge(3, 0, 2), c18bridge(3, 0, 0), c18bridge(2, 1, 8), c18bridge(5, 0, 8, true), c18dpipe(4), c18dpipeBlocked(true, 1), c18dpipeBlocked(false, 1)}
+				return []*explore.Scenario{c18bridge(4, 0, 8), c18bridge(3, 0, 2), c18bridge(3, 0, 0), c18bridge(2, 1, 8), c18bridge(5, 0, 8, true), c18dpipe(4), c18dpipeBlocked(true, 1), c18dpipeBlocked(false, 1), c18dpipeLarge()}
 			}
-			return []*explore.Scenario{c18bridge(5, 0, 8), c18bridge(4, 0, 2), c18bridge(3, 0, 0), c18bridge(3, 1, 8), c18bridge(6, 0, 8, true), c18dpipe(6), c18dpipeBlocked(true, 2), c18dpipeBlocked(false, 2)}
+			return []*explore.Scenario{c18bridge(5, 0, 8), c18bridge(4, 0, 2), c18bridge(3, 0, 0), c18bridge(3, 1, 8), c18bridge(6, 0, 8, true), c18dpipe(6), c18dpipeBlocked(true, 2), c18dpipeBlocked(false, 2), c18dpipeLarge()}
 		},
-		Rule: "Bridge: every script of the stated length over {writes of 0/1/3-byte messages in both directions, DropNextNWrites, ReorderNextNWrites (1,2,3; also repeated), Drop, Reorder, Filter (set and cleared), Tick, Process} with parked reader threads (one variant: the reader of one direction starts late, and a Tick without a waiting reader must leave the queue untouched) (slices of 0, 2, 8 bytes), compared per endpoint with a script interpreter; dpipe: every script over {writes both ways incl. empty, reads with short/long/zero-length slices (a zero-length read still consumes one message), Close of either end, filling the 1000-message buffer}; plus: buffer full, one more Write blocked in its own thread, then the writing end is closed / the peer reads one",
+		Rule: "Bridge: every script of the stated length over {writes of 0/1/3-byte messages in both directions, DropNextNWrites, ReorderNextNWrites (1,2,3; also repeated), Drop, Reorder, Filter (set and cleared), Tick, Process} with parked reader threads (one variant: the reader of one direction starts late, and a Tick without a waiting reader must leave the queue untouched) (slices of 0, 2, 8 bytes), compared per endpoint with a script interpreter; dpipe: every script over {writes both ways incl. empty, reads with short/long/zero-length slices (a zero-length read still consumes one message), Close of either end, filling the 1000-message buffer}; messages of 65535, 65536, 65537, 70000 and 2^20 bytes both ways; plus: buffer full, one more Write blocked in its own thread, then the writing end is closed / the peer reads one",
 		Assumptions: []string{"precedence between a reorder window and a filter, and Drop with an offset beyond the queue, are not specified by the property: such steps are skipped; a drop window pending together with a reorder window: the dropped writes count as never written and the reorder window collects the next surviving writes; a drop window counts calls of Write (a write is delivered iff it is outside the window and passes the filter); ReorderNextNWrites re-armed while a window is partly collected: messages are compared as a multiset for that direction (nothing lost, duplicated or invented; order within the merged window unspecified)",
 			"a one-message reordering delivers that message (reversal of one element)"}})
 }
